@@ -13,9 +13,12 @@ Only property theorems live here (helper lemmas: `Lemmas/Labels*.lean`, `Lemmas/
 import PdfVerif.Lemmas.Labels
 import PdfVerif.Lemmas.LabelRanges
 import PdfVerif.Lemmas.LabelsExtra
+import PdfVerif.Lemmas.LabelsGen
 import PdfVerif.Lemmas.Outline
 import PdfVerif.Lemmas.OutlineGraph
+import PdfVerif.Lemmas.OutlineStore
 import PdfVerif.Lemmas.NameTree
+import PdfVerif.Lemmas.NameTreeAny
 
 namespace PdfVerif.Props.C17
 open PdfVerif PdfVerif.Labels PdfVerif.Gen.LabelTables
@@ -69,15 +72,16 @@ example : encodeUtf16BE [0x41, 0x4E2D, 0x1F600, 0x10FFFF] =
 
 /-! ## Numerals (ISO 32000-1 Table 159) -/
 
-/-- `format_int_roman` is the subtractive-notation numeral for every `0 < n < 4000`
-(kernel-evaluated sweep over the whole domain, against the regenerated ROMAN_* tables). -/
+/-- `format_int_roman` is the subtractive-notation numeral for EVERY `n ≥ 1`: the three low digits
+by a kernel-evaluated sweep against the regenerated ROMAN_* tables, the thousands (any number of
+them: 4000 ↦ `mmmm`) in general.  (Round 6; the code asserted `value < 4000` before the fix.) -/
+theorem roman_correct_all (n : Nat) (h0 : 0 < n) :
+    formatIntRoman (n : Int) = .ok (Spec.Labels.romanAux Spec.Labels.romanTable n) :=
+  formatIntRoman_all n h0
+
 theorem roman_correct (n : Nat) (h0 : 0 < n) (h1 : n < 4000) :
-    formatIntRoman (n : Int) = .ok (Spec.Labels.romanAux Spec.Labels.romanTable n) := by
-  have h := all_range_lift romanOk_all n h1
-  unfold romanOk at h
-  have hn : (n == 0) = false := by simp; omega
-  rw [hn, Bool.false_or] at h
-  exact eq_of_isOk h
+    formatIntRoman (n : Int) = .ok (Spec.Labels.romanAux Spec.Labels.romanTable n) :=
+  roman_correct_all n h0
 
 /-- Sanity of the specification itself: reading the numeral back gives `n`. -/
 theorem roman_value (n : Nat) (h1 : n < 4000) :
@@ -86,10 +90,15 @@ theorem roman_value (n : Nat) (h1 : n < 4000) :
   unfold romanValueOk at h
   exact eq_of_beq h
 
-/-- Outside `0 < value < 4000` the code raises `AssertionError` (modelled, not totalised away). -/
-theorem roman_outside (v : Int) (h : v ≤ 0 ∨ 4000 ≤ v) : formatIntRoman v = .error .assertion := by
+/-- The same for EVERY `n` (any number of leading `m`, which are never subtracted). -/
+theorem roman_value_all (n : Nat) :
+    Spec.Labels.romanValue (Spec.Labels.romanAux Spec.Labels.romanTable n) = (n : Int) := romanValue_all n
+
+/-- For `value ≤ 0` the code raises `AssertionError` (modelled, not totalised away); since the
+round-6 fix there is no upper bound. -/
+theorem roman_outside (v : Int) (h : v ≤ 0) : formatIntRoman v = .error .assertion := by
   unfold formatIntRoman
-  have : ¬ (0 < v ∧ v < 4000) := by omega
+  have : ¬ (0 < v) := by omega
   simp [this]
 
 /-- FULL STATEMENT for styles A/a: the letters numeral of every positive value is the one of
@@ -130,6 +139,106 @@ theorem alpha_bijective (n : Nat) (h : 0 < n) :
   · unfold alphaValue
     rw [alphaLoop_value n n [] (Nat.le_refl n)]
     rfl
+
+/-! ### The translated numeral code (`Gen/LabelCode.lean`, regenerated from utils.py on every run)
+
+`format_int_roman` / `format_int_alpha` assembled from the TRANSLATED assert, `while` test, loop
+body and tail (only the `while` construct itself is hand-written glue) are the hand models for
+every integer — so each theorem above is a theorem about the translated straight-line code, and an
+edit of a loop body in utils.py breaks these proofs. -/
+
+open PdfVerif.LabelsGen PdfVerif.Gen.LabelCode in
+/-- ONE pass through the translated body of the `while` loop of `format_int_roman`, in ANY state
+(any value, any index — including `ROMAN_ONES[index]` out of range — any partial result), is the
+hand model's step; IndexError is IndexError. -/
+theorem roman_body_translated (n i : Nat) (r : List Text) :
+    liftErr (format_int_roman_body (n : Int) (i : Int) r) =
+      (romanStep i (n % 10) r).map (fun r' => (((n / 10 : Nat) : Int), (i : Int) + 1, r')) :=
+  PdfVerif.Lemmas.LabelsGen.roman_body_eq n i r
+
+open PdfVerif.LabelsGen in
+/-- The translated `format_int_roman` is the hand model for EVERY integer (assertion included). -/
+theorem roman_translated (v : Int) : genFormatIntRoman v = formatIntRoman v :=
+  PdfVerif.Lemmas.LabelsGen.genFormatIntRoman_eq v
+
+open PdfVerif.LabelsGen in
+/-- Hence the translated code writes the subtractive-notation numeral for EVERY `n ≥ 1`, never
+exhausts its pass budget, and raises AssertionError for `n ≤ 0`. -/
+theorem roman_translated_correct (n : Nat) (h0 : 0 < n) :
+    genFormatIntRoman (n : Int) = .ok (Spec.Labels.romanAux Spec.Labels.romanTable n) := by
+  rw [roman_translated]; exact roman_correct_all n h0
+
+open PdfVerif.LabelsGen in
+theorem roman_translated_outside (v : Int) (h : v ≤ 0) :
+    genFormatIntRoman v = .error .assertion := by
+  rw [roman_translated]; exact roman_outside v h
+
+open PdfVerif.LabelsGen PdfVerif.Gen.LabelCode in
+/-- ONE pass through the translated body of the `while` loop of `format_int_alpha`
+(`divmod(value - 1, len(string.ascii_lowercase))`, `string.ascii_lowercase[remainder]`), for every
+positive value and partial result: never an IndexError. -/
+theorem alpha_body_translated (n : Nat) (h : 0 < n) (r : List Text) :
+    liftErr (format_int_alpha_body (n : Int) r) =
+      .ok ((((n - 1) / 26 : Nat) : Int), r ++ [[97 + (n - 1) % 26]]) :=
+  PdfVerif.Lemmas.LabelsGen.alpha_body_eq n h r
+
+open PdfVerif.LabelsGen in
+/-- The translated `format_int_alpha` is the hand model for EVERY integer (assertion included). -/
+theorem alpha_translated (v : Int) : genFormatIntAlpha v = formatIntAlpha v :=
+  PdfVerif.Lemmas.LabelsGen.genFormatIntAlpha_eq v
+
+open PdfVerif.LabelsGen in
+/-- Hence, for EVERY positive value, the translated code returns the numeral whose reading in
+bijective base 26 is the value (and for 28 it returns `ab`, not Table 159's `bb`). -/
+theorem alpha_translated_bijective (n : Nat) (h : 0 < n) :
+    ∃ t, genFormatIntAlpha (n : Int) = .ok t ∧ alphaValue t = n := by
+  rw [alpha_translated]; exact alpha_bijective n h
+
+open PdfVerif.LabelsGen in
+theorem alpha_translated_cex : genFormatIntAlpha 28 = .ok [97, 98] := by
+  rw [alpha_translated]; exact alpha_cex_values.1
+
+open PdfVerif.LabelsGen in
+/-- `PageLabels._format_page_label` as the TRANSLATED if/elif chain (`style is LIT("D")` → `str(value)`,
+`R` → `format_int_roman(value).upper()`, … in source order, the `None` and `else` labels) over the
+translated numeral functions = the hand model, for every value and every style (unknown ones too). -/
+theorem format_page_label_translated (v : Int) (style : Option Bytes) :
+    genFormatPageLabel v style = formatPageLabel v style :=
+  PdfVerif.Lemmas.LabelsGen.genFormatPageLabel_eq v style
+
+open PdfVerif.LabelsGen in
+/-- A range of `PageLabels.labels` that is followed by another one, from the TRANSLATED
+`label_dict.get("St", 1)`, `label_dict.get("P", b"")`, `range_length = end - start`,
+`values = range(first_value, first_value + range_length)`: what the hand model's generator yields for
+it (cut after `n` labels), then the generator goes on with the next range. -/
+theorem labels_range_translated (s e : Int) (d d' : LabelDict) (rest : List (Int × LabelDict)) (n : Nat) :
+    labelsFrom s d ((e, d') :: rest) n =
+      (genRangeLabels d s e).take n ++ labelsFrom e d' rest (n - min (e - s).toNat n) := by
+  rw [PdfVerif.Lemmas.LabelsGen.genRangeLabels_eq]
+  simp only [labelsFrom, rangeLabels, ← List.map_take, List.take_range]
+  rw [Nat.min_comm]
+
+/-- Non-vacuity: the translated code evaluated by the kernel — numerals with every kind of digit
+(9, 4, ≥ 5, < 5), the assertion, the loop body with an index past the table (IndexError), letters. -/
+example : (PdfVerif.LabelsGen.genFormatIntRoman 3949).toOption = some [109, 109, 109, 99, 109, 120, 108, 105, 120] := by
+  decide +kernel
+example : (PdfVerif.LabelsGen.genFormatIntRoman 1678).toOption = some [109, 100, 99, 108, 120, 120, 118, 105, 105, 105] := by
+  decide +kernel
+example : (PdfVerif.LabelsGen.genFormatIntRoman 4000).toOption = some [109, 109, 109, 109] := by decide +kernel
+example : (formatIntRoman 14999).toOption = some ((List.replicate 14 109) ++ [99, 109, 120, 99, 105, 120]) := by
+  decide +kernel
+example : (PdfVerif.LabelsGen.genFormatIntRoman 0).toOption = none := by decide +kernel
+example : (PdfVerif.LabelsGen.liftErr (PdfVerif.Gen.LabelCode.format_int_roman_body 9 3 [])).toOption = none := by
+  decide +kernel
+example : (PdfVerif.LabelsGen.liftErr (PdfVerif.Gen.LabelCode.format_int_roman_body 47 1 [[105]])).toOption
+    = some (4, 2, [[108], [120, 120], [105]]) := by decide +kernel
+example : (PdfVerif.LabelsGen.genFormatIntAlpha 703).toOption = some [97, 97, 97] := by decide +kernel
+example : (PdfVerif.LabelsGen.genFormatIntAlpha 0).toOption = none := by decide +kernel
+example : (PdfVerif.LabelsGen.genFormatPageLabel 1949 (some styleR)).toOption = some [77, 67, 77, 88, 76, 73, 88] := by
+  decide +kernel
+example : (PdfVerif.LabelsGen.genFormatPageLabel 5 (some [120])).toOption = some [] := by decide +kernel
+example : (PdfVerif.LabelsGen.genRangeLabels { style := some styleD, pfx := some [65, 45] } 3 5).map Except.toOption
+    = [some [65, 45, 49], some [65, 45, 50]] := by decide +kernel
 
 /-- The loop bound of the letters model is never the reason it stops: any fuel `≥ value` gives
 the same result (the code's `while value != 0` terminates since `(value − 1) / 26 < value`). -/
@@ -209,7 +318,7 @@ theorem C17_label_strict (t : NumTree LabelDict) (n : Nat)
     simp [withZero]
 
 
-/-- The model's numeral is the ISO numeral: decimal, roman (upper/lower) for `0 < v < 4000`,
+/-- The model's numeral is the ISO numeral: decimal, roman (upper/lower) for every `v > 0`,
 letters for `v ≤ 26` (beyond that the statement is false, see `alpha_cex`). -/
 theorem numeral_partial (style : Option Bytes) (v : Int) (num : Text)
     (h : numeral style v = some num)
@@ -221,7 +330,7 @@ theorem numeral_partial (style : Option Bytes) (v : Int) (num : Text)
     split at hr
     · rename_i hc
       have hv : v = (v.toNat : Int) := by omega
-      rw [hv, roman_correct v.toNat hc.1 hc.2]
+      rw [hv, roman_correct_all v.toNat hc]
       simpa using hr
     · simp at hr
   have halpha : 0 < v → v ≤ 26 → ∀ r, alpha v.toNat = some r → formatIntAlpha v = .ok r := by
@@ -269,8 +378,8 @@ theorem numeral_partial (style : Option Bytes) (v : Int) (num : Text)
     simp at h
 
 /-- FULL STATEMENT for page labels: on every conforming tree, the label the code generates for
-page `i` is the one ISO 32000-1 12.4.2 defines (whenever that is defined: known style, roman
-value below 4000, prefix a valid text string).  False on the pinned code because of the letters
+page `i` is the one ISO 32000-1 12.4.2 defines (whenever that is defined: known style, positive
+roman value, prefix a valid text string).  False on the pinned code because of the letters
 numeral (`C17_label_cex`); `C17_label_partial` proves it with values of the letter styles ≤ 26. -/
 def C17_label_statement : Prop :=
   ∀ (t : NumTree LabelDict) (n i : Nat) (l : Text), i < n →
@@ -306,6 +415,115 @@ theorem C17_label_cex : ¬ C17_label_statement := by
   have h2 := congrArg (fun o => o.map Except.toOption) this
   revert h2
   decide +kernel
+
+/-! ### Full statements with the pinned letters numeral (round 6)
+
+The letters numeral of the pinned code is not Table 159's (`alpha_cex`), but it is determined
+completely: it is THE bijective base-26 numeral of the value.  With it the label of every page of
+every conforming tree — every style, every value — is characterised exactly. -/
+
+/-- For EVERY `n > 0` the code's letters numeral is characterised: `t` is returned iff `t` consists of
+lowercase letters and reads `n` in bijective base 26. -/
+theorem alpha_characterised (n : Nat) (h : 0 < n) (t : Text) :
+    formatIntAlpha (n : Int) = .ok t ↔ isBijNumeral t (n : Int) := by
+  have hfa : formatIntAlpha (n : Int) = .ok (alphaLoop n n []) := by
+    simp [formatIntAlpha]; omega
+  constructor
+  · intro ht
+    rw [hfa] at ht
+    simp only [Except.ok.injEq] at ht
+    subst ht
+    refine ⟨alphaLoop_letters n n [] (by simp), ?_⟩
+    unfold alphaValue
+    rw [alphaLoop_value n n [] (Nat.le_refl n)]
+    rfl
+  · intro ⟨hl, hv⟩
+    have hv' : alphaValue t = n := by omega
+    have := alphaLoop_of_value t.reverse (by simpa using hl) n [] (by simp [hv'])
+    simp only [List.reverse_reverse, hv', List.append_nil] at this
+    rw [hfa, this]
+
+/-- Such a numeral is unique (so `isBijNumeral · v` names one string). -/
+theorem bijNumeral_unique (t t' : Text) (v : Int) (h : isBijNumeral t v) (h' : isBijNumeral t' v) : t = t' := by
+  have hv : alphaValue t = alphaValue t' := by have := h.2; have := h'.2; omega
+  have a := alphaLoop_of_value t.reverse (by simpa using h.1) (alphaValue t) [] (by simp)
+  have b := alphaLoop_of_value t'.reverse (by simpa using h'.1) (alphaValue t) [] (by simp [hv])
+  simp only [List.reverse_reverse, List.append_nil] at a b
+  rw [← hv] at b
+  rw [← a, ← b]
+
+/-- FULL numeral statement for the pinned code: wherever ISO 32000-1 defines a numeral (known style,
+positive value for roman and letters), `_format_page_label` returns normally — decimal and roman
+(any value ≥ 1) exactly as Table 159, letters as the unique bijective base-26 numeral. -/
+theorem numeral_full (style : Option Bytes) (v : Int) (h : (numeral style v).isSome = true) :
+    ∃ num, formatPageLabel v style = .ok num ∧ numeralPinned style v num := by
+  have hletters : 0 < v → ∃ t, formatIntAlpha v = .ok t ∧ isBijNumeral t v := by
+    intro h0
+    have hv : v = (v.toNat : Int) := by omega
+    refine ⟨alphaLoop v.toNat v.toNat [], ?_, ?_⟩
+    · simp [formatIntAlpha, h0]
+    · rw [hv]
+      exact (alpha_characterised v.toNat (by omega) _).mp (by simp [formatIntAlpha]; omega)
+  by_cases hA : style = some styleA
+  · subst hA
+    have h0 : 0 < v := by
+      by_cases h0 : 0 < v
+      · exact h0
+      · exfalso; revert h; simp [numeral, h0, styleA, styleD, styleR, styler]
+    obtain ⟨t, ht, hb⟩ := hletters h0
+    refine ⟨upper t, ?_, ?_⟩
+    · simp [formatPageLabel, ht, Except.map, styleA, styleD, styleR, styler]
+    · simp only [numeralPinned, if_true]
+      exact ⟨t, hb, rfl⟩
+  by_cases ha : style = some stylea
+  · subst ha
+    have h0 : 0 < v := by
+      by_cases h0 : 0 < v
+      · exact h0
+      · exfalso; revert h; simp [numeral, h0, stylea, styleA, styleD, styleR, styler]
+    obtain ⟨t, ht, hb⟩ := hletters h0
+    refine ⟨t, ?_, ?_⟩
+    · simp [formatPageLabel, ht, stylea, styleA, styleD, styleR, styler]
+    · simp only [numeralPinned, hA, if_false, if_true]
+      exact hb
+  · obtain ⟨num, hnum⟩ := Option.isSome_iff_exists.mp h
+    refine ⟨num, numeral_partial style v num hnum (fun hc => ?_), ?_⟩
+    · rcases hc with hc | hc
+      · exact absurd hc hA
+      · exact absurd hc ha
+    · simp only [numeralPinned, hA, ha, if_false]
+      exact hnum
+
+/-- FULL page-label statement for the pinned code: on every conforming tree, for EVERY page whose
+label ISO 32000-1 12.4.2 defines (valid prefix, known style, positive value for roman/letters — no
+bound on values), the generator yields prefix ++ numeral with the numeral of `numeral_full`: the
+ISO label for styles D/R/r/none, and for A/a the ISO label with the letters numeral replaced by the
+unique bijective base-26 one (the open finding, and nothing else). -/
+theorem C17_label_full (t : NumTree LabelDict) (n i : Nat) (hi : i < n)
+    (hasc : ascending ((flatten t).map (·.1)) = true)
+    (h0 : (flatten t).head?.map (·.1) = some 0)
+    (start : Int) (d : LabelDict) (hr : rangeOf (flatten t) (i : Int) = some (start, d))
+    (pre : Text) (hpre : Spec.Labels.text (d.pfx.getD []) = some pre)
+    (hnum : (numeral d.style (d.st.getD 1 + ((i : Int) - start))).isSome = true) :
+    ∃ num, (Labels.labels t n)[i]? = some (.ok (pre ++ num))
+      ∧ numeralPinned d.style (d.st.getD 1 + ((i : Int) - start)) num := by
+  obtain ⟨num, hf, hp⟩ := numeral_full d.style _ hnum
+  refine ⟨num, ?_, hp⟩
+  rw [C17_label_range t n i hi hasc h0 start d hr]
+  have h2 := decode_text_spec _ pre hpre
+  simp [labelOf, hf, h2, Except.map]
+
+/-- Non-vacuity: letters past 26 and roman past 3999 in one tree; the numerals are the pinned ones. -/
+example :
+    let t : NumTree LabelDict := .node []
+      [.node [(0, { style := some stylea, st := some 27 })] [],
+       .node [(2, { style := some styleR, st := some 3999 })] []]
+    ascending ((flatten t).map (·.1)) = true
+    ∧ (flatten t).head?.map (·.1) = some 0
+    ∧ (Labels.labels t 4).map Except.toOption =
+        [some [97, 97], some [97, 98], some [77, 77, 77, 67, 77, 88, 67, 73, 88], some [77, 77, 77, 77]] := by
+  decide +kernel
+example : isBijNumeral [97, 98] 28 := ⟨by decide, by decide⟩
 
 /-- Non-vacuity: a two-level tree with three ranges (roman front matter, decimal body with a
 prefix, letters appendix) satisfies the hypotheses, and the model produces the ISO labels. -/
@@ -409,6 +627,64 @@ example :
     getOutlinesG g 1 = some [⟨1, [65], some 7, none, none⟩, ⟨2, [66], none, some 8, none⟩] := by
   decide +kernel
 
+/-! ### The graph walk on an outline stored as indirect objects (round 6)
+
+`C17_outline` speaks about the term model (`First`/`Next` unfolded); the code after fix 331cdea
+walks REFERENCES with a visited set.  These theorems close the gap: whenever the object graph
+stores an entry under distinct object ids (what every PDF writer does), the visited set never
+suppresses anything and the graph walk yields exactly what the term model yields — hence the
+preorder with levels, for every forest, any fan-out and depth. -/
+
+open PdfVerif.Spec.OutlineStore in
+/-- EVERY store, EVERY entry stored in it without sharing: `get_outlines` on the object graph
+(visited set, budget `|store| + 1`) = the term model on that entry. -/
+theorem C17_outline_graph_eq (g : Store) (root : Nat) (e : Entry) (ids : List Nat)
+    (hs : Stored g (some root) e ids) : getOutlinesG g root = some (getOutlines e) :=
+  PdfVerif.Lemmas.OutlineStore.getOutlinesG_stored g root e ids hs
+
+open PdfVerif.Spec.OutlineStore PdfVerif.Spec.Outline in
+/-- FULL outline statement for the repaired code's graph walk: for every forest in the domain, stored
+anywhere in an object graph as indirect objects, `get_outlines` = the items in document order with
+their nesting levels (ISO 32000-1 12.3.3). -/
+theorem C17_outline_graph (g : Store) (root : Nat) (forest : List OTree) (ids : List Nat) (items : List Item)
+    (hs : Stored g (some root) (encRoot forest) ids)
+    (h : Spec.Outline.outline forest = some items) :
+    getOutlinesG g root = some items := by
+  rw [C17_outline_graph_eq g root _ ids hs, C17_outline forest items h]
+
+/-- Data of the non-vacuity example: root (object 1) → item A (2) with child B (4) → sibling C (3). -/
+def exStore : Store :=
+  [(1, { info := {}, first := some 2, hasLast := true }),
+   (2, { info := { title := some [65], dest := some 1 }, first := some 4, hasLast := true, next := some 3 }),
+   (3, { info := { title := some [67], a := some 4 } }),
+   (4, { info := { title := some [66], dest := some 3 } })]
+
+def exForest : List PdfVerif.Spec.Outline.OTree :=
+  [.mk { title := some [65], dest := some 1 } [.mk { title := some [66], dest := some 3 } []],
+   .mk { title := some [67], a := some 4 } []]
+
+open PdfVerif.Spec.OutlineStore PdfVerif.Spec.Outline in
+/-- Non-vacuity: the hypotheses of `C17_outline_graph` hold for a two-level outline written as four
+indirect objects, and the graph walk lists A (1), B (2), C (1). -/
+example :
+    Stored exStore (some 1) (encRoot exForest) [1, 2, 4, 3]
+    ∧ Spec.Outline.outline exForest = some
+        [⟨1, [65], some 1, none, none⟩, ⟨2, [66], some 3, none, none⟩, ⟨1, [67], none, some 4, none⟩]
+    ∧ getOutlinesG exStore 1 = some
+        [⟨1, [65], some 1, none, none⟩, ⟨2, [66], some 3, none, none⟩, ⟨1, [67], none, some 4, none⟩] := by
+  have h4 : Stored exStore (some 4) (.mk { title := some [66], dest := some 3 } .nil false .nil) [4] :=
+    Stored.mk 4 { info := { title := some [66], dest := some 3 } } .nil .nil [] [] rfl .nil .nil
+      (by simp) (by simp) (by simp)
+  have h3 : Stored exStore (some 3) (.mk { title := some [67], a := some 4 } .nil false .nil) [3] :=
+    Stored.mk 3 { info := { title := some [67], a := some 4 } } .nil .nil [] [] rfl .nil .nil
+      (by simp) (by simp) (by simp)
+  have h2 := Stored.mk (g := exStore) 2
+    { info := { title := some [65], dest := some 1 }, first := some 4, hasLast := true, next := some 3 }
+    _ _ [4] [3] rfl h4 h3 (by simp) (by simp) (by simp)
+  have h1 := Stored.mk (g := exStore) 1 { info := {}, first := some 2, hasLast := true }
+    _ .nil _ [] rfl h2 .nil (by simp) (by simp) (by simp)
+  refine ⟨h1, by decide +kernel, by decide +kernel⟩
+
 end OutlineGraph
 
 /-! ## Name trees and named destinations (ISO 32000-1 7.9.6, 12.3.2.3) -/
@@ -481,6 +757,88 @@ example :
     ∧ getDest (some t) none (.bytes [103]) = .notFound
     ∧ getDest (some t) none (.bytes []) = .notFound
     ∧ getDest (some t) (some [([102, 111, 111], 9)]) (.name [102, 111, 111]) = .value 9 := by
+  decide +kernel
+
+/-! ### Arbitrary name trees (round 6): unsorted, duplicate keys, wrong or missing Limits -/
+
+/-- SOUNDNESS on EVERY name tree, conforming or not: whatever `lookup_name` returns for a key is a
+value the tree associates with that key (never a neighbour's value, whatever the Limits say). -/
+theorem C17_nametree_sound (t : Node) (key : Key) (v : Int)
+    (h : lookupName (some t) (.bytes key) = .found v) : (key, v) ∈ flatten t := by
+  simp only [lookupName] at h
+  cases hl : lookup key t with
+  | found w =>
+    rw [hl] at h
+    simp only [Res.found.injEq] at h
+    subst h
+    exact PdfVerif.Lemmas.NameTreeAny.lookup_sound key t w hl
+  | none_ => rw [hl] at h; cases h
+  | keyError => rw [hl] at h; cases h
+
+/-- WHICH DUPLICATE WINS: in a node with a `Names` array (sorted or not, `Kids` ignored), a key inside
+the node's Limits gets the value of its LAST occurrence in the array (`dict(...)` semantics), and
+`KeyError` when it does not occur. -/
+theorem C17_nametree_last_wins (lim : Option (Key × Key)) (ns : List (Key × Int)) (kids : List Node) (key : Key)
+    (hin : outside key lim = false) :
+    lookup key (.node lim (some ns) kids) =
+      match assoc ns.reverse key with
+      | some v => .found v
+      | none => .keyError := by
+  unfold lookup
+  simp only [hin, Bool.false_eq_true, if_false, PdfVerif.Lemmas.NameTreeAny.dictGet_eq_assoc_reverse]
+  cases assoc ns.reverse key <;> rfl
+
+/-- SOUNDNESS of `get_dest` on EVERY catalog: a value returned for a string comes from the name tree
+under that key, a value returned for a name object from the legacy `/Dests` dictionary under that
+name — never from the other structure. -/
+theorem C17_dest_sound (tree : Option Node) (dests : Option (List (Key × Int))) (key : QKey) (v : Int)
+    (h : getDest tree dests key = .value v) :
+    match key with
+    | .bytes k => ∃ t, tree = some t ∧ (k, v) ∈ flatten t
+    | .name n => ∃ d, dests = some d ∧ (n, v) ∈ d := by
+  cases key with
+  | bytes k =>
+    cases tree with
+    | none => simp [getDest, lookupName] at h
+    | some t =>
+      refine ⟨t, rfl, ?_⟩
+      apply C17_nametree_sound t k v
+      cases hl : lookupName (some t) (.bytes k) with
+      | found w =>
+        simp only [getDest, hl, DestRes.value.injEq] at h
+        rw [h]
+      | none_ => simp [getDest, hl] at h
+      | keyError => simp [getDest, hl] at h
+  | name n =>
+    have hl : lookupName tree (.name n) = .keyError := by cases tree <;> rfl
+    cases dests with
+    | none => simp [getDest, hl] at h
+    | some d =>
+      refine ⟨d, rfl, ?_⟩
+      simp only [getDest, hl] at h
+      have e : assocName d n = assoc d n := rfl
+      cases ha : assoc d n with
+      | some w =>
+        rw [e, ha] at h
+        simp only [DestRes.value.injEq] at h
+        subst h
+        exact mem_of_assoc ha
+      | none => rw [e, ha] at h; cases h
+
+/-- Non-vacuity: an unsorted leaf with a duplicate key (the last `b` wins); a root with Names AND Kids
+(Kids ignored); Kids without Limits where the first kid lacks the key (`KeyError` although a later
+kid has it — the reason ISO requires Limits); the returned values are in the flattening. -/
+example :
+    let leaf : Node := .node none (some [([98], 1), ([97], 2), ([98], 3)]) []
+    let mixed : Node := .node none (some [([97], 5)]) [.node none (some [([98], 6)]) []]
+    let nolim : Node := .node none none [.node none (some [([97], 7)]) [], .node none (some [([98], 8)]) []]
+    lookupName (some leaf) (.bytes [98]) = .found 3
+    ∧ lookupName (some leaf) (.bytes [97]) = .found 2
+    ∧ lookupName (some mixed) (.bytes [98]) = .keyError
+    ∧ lookupName (some nolim) (.bytes [97]) = .found 7
+    ∧ lookupName (some nolim) (.bytes [98]) = .keyError
+    ∧ getDest (some leaf) (some [([98], 9)]) (.name [98]) = .value 9
+    ∧ getDest (some leaf) (some [([98], 9)]) (.bytes [98]) = .value 3 := by
   decide +kernel
 
 end NameTree
